@@ -5,6 +5,11 @@ open Lean DUtil
 namespace Drivers.Race
 open _root_.Race
 
+inductive Col
+  | join (id : Nat) (completing : List Nat) (anyC : List Nat)
+  | tasks (ts : List TaskA)
+  | empty
+
 def parseTask (j : Json) : Except String TaskA := do
   return ⟨← getNat j "client", ← getNat j "tid", ← getBool j "finite", ← getBool j "cp", ← getBool j "acp"⟩
 
@@ -24,6 +29,17 @@ def parseCol (j : Json) : Except String Col := do
 
 def getAt {α : Type} (l : List α) (d : α) (i : Nat) : α := (l[i]?).getD d
 
+/-- group a worker's flat column list (as `ClientAllocations` holds it) by schedule element -/
+def groupCols (cols : List Col) : List (List (List TaskA)) × List (Nat × JoinInfo) :=
+  let r := cols.foldl (fun (acc : List (List (List TaskA)) × List (List TaskA) × List (Nat × JoinInfo) × Bool) c =>
+    let (els, cur, js, seenFirst) := acc
+    match c with
+    | .join id comp anyc =>
+      if seenFirst then (els ++ [cur], [], js ++ [(id, ⟨comp, anyc⟩)], true) else (els, [], js ++ [(id, ⟨comp, anyc⟩)], true)
+    | .tasks ts => (els, cur ++ [ts], js, seenFirst)
+    | .empty => (els, cur, js, seenFirst)) ([], [], [], false)
+  (r.1, r.2.2.1)
+
 def parseCfg (j : Json) : Except String Cfg := do
   let W ← getNat j "W"
   let S ← getNat j "S"
@@ -34,7 +50,15 @@ def parseCfg (j : Json) : Except String Cfg := do
   let co ← (← getArr j "clientsOf").mapM fun r => do
     let a ← (fromJson? r : Except String (Array Nat))
     return a.toList
-  return { W := W, S := S, cols := getAt cols [], workerOf := getAt wo 0, clientsOf := getAt co [] }
+  let grouped := cols.map groupCols
+  let els := grouped.map (·.1)
+  let js := (grouped.head?.map (·.2)).getD []
+  -- the join ids must be 0,1,2,… on every worker (C02: join points aligned)
+  for g in grouped do
+    if g.2.map (·.1) != List.range (S + 1) then throw "join ids are not 0..S on some worker"
+    if g.1.length != S then throw "number of elements differs from S"
+  return { W := W, S := S, elems := fun w e => getAt (getAt els [] w) [] e,
+           joins := fun k => (getAt (js.map (·.2)) ⟨[], []⟩ k), workerOf := getAt wo 0, clientsOf := getAt co [] }
 
 def parseEvent (j : Json) : Except String Event := do
   let e ← j.getObjValAs? String "e"
@@ -70,15 +94,18 @@ def outputs (cfg : Cfg) (s s' : State) (ev : Event) : Json :=
       | .wakeW v => if v = w then (s.ws w).wake - 1 else (s.ws w).wake
       | _ => (s.ws w).wake
     acc + ((s'.ws w).wake - before)) 0
-  let sub := (s'.starts.drop s.starts.length).map fun p => arr [toJson p.1, toJson p.2]
+  let sub := (s'.entered.drop s.entered.length).flatMap fun (w, e, c) =>
+    (getAt (cfg.elems w e) [] c).map fun t => arr [toJson t.client, toJson t.tid]
   Json.mkObj [("toW", arr toW), ("toD", arr toD), ("toR", arr toR), ("armed", toJson armed), ("submitted", arr sub)]
+
+def isParked (s : State) (w : Nat) : Bool := parked (s.ws w)
 
 def tagsOf (cfg : Cfg) (s s' : State) (ev : Event) : List String :=
   match ev with
   | .deliverDW w =>
     match s.d2w w with
     | .cct :: _ =>
-      if isJoinAt (cfg.cols w) (s.ws w).cur then
+      if isParked s w then
         (if (s.ws w).startDriving then ["cct-while-armed"] else ["cct-ignored-at-join"])
       else ["cct-honoured"]
     | .drive :: _ => ["drive"]
@@ -87,10 +114,12 @@ def tagsOf (cfg : Cfg) (s s' : State) (ev : Event) : List String :=
   | .wakeW w =>
     if (s.ws w).startDriving then
       (if (s.ws w).complete then ["wake-drive-complete-set"] else ["wake-drive"]) ++
-      (if (s'.ws w).cur > (s.ws w).nxt then ["skipped-columns"] else [])
+      (if isParked s' w then ["element-without-own-tasks-or-skipped"] else [])
     else match (s.ws w).exec with
-      | .finished => ["wake-next"] ++ (if (s.ws w).complete && !(isJoinAt (cfg.cols w) (s'.ws w).cur) then ["bug?"] else []) ++
-          (if (s.ws w).complete && (s'.ws w).cur > (s.ws w).nxt then ["skip-branch"] else [])
+      | .finished => ["wake-next"] ++
+          (match (s.ws w).pos with
+           | .inCol e c => if (s.ws w).complete && ((cfg.elems w e)[c + 1]?).isSome then ["skip-branch"] else []
+           | _ => [])
       | .running _ => ["wake-idle"]
       | .none => ["wake-no-executor"]
   | .taskDone w i =>
@@ -133,7 +162,7 @@ def handle (op : String) (a : Json) : Except String Json := do
     let quiescent := (List.range cfg.W).all fun w => (s.d2w w).isEmpty && (s.w2d w).isEmpty && (s.ws w).wake = 0
     return ok (Json.mkObj [("events", toJson n), ("stepP1", toJson s.d.stepP1),
       ("d2r", arr (s.d2r.map fun m => Json.str (msgDR m))),
-      ("starts", arr (s.starts.map fun p => arr [toJson p.1, toJson p.2])),
+      ("entered", toJson s.entered.length),
       ("quiescent", toJson quiescent)]) tags.eraseDups
   | _ => throw s!"unknown op {op}"
 
